@@ -15,6 +15,7 @@
 // output: "ORACLE ok|VIOL ...", then "F id tid word op old new func" records (word 0 = os_obj_ref_cnt, 1 = os_obj_xref_cnt)
 #define _GNU_SOURCE
 #include <dispatch/dispatch.h>
+#include <fcntl.h>
 extern void _Block_release(const void *);
 #include <stdio.h>
 #include <stdint.h>
@@ -224,8 +225,31 @@ static void group_round(void){ struct sq *x=calloc(1,sizeof *x); dispatch_group_
     if(atomic_load(&nn)!=n || atomic_load(&body)!=1) fail("the notifications of a block object did not each run exactly once after its execution (5 s): expected/ran/body runs",n,atomic_load(&nn),atomic_load(&body));
     if(!viol && dispatch_block_wait(b,dispatch_time(DISPATCH_TIME_NOW,1000000000ll))) fail("dispatch_block_wait on a completed block object with several notifications timed out",n,0,0);
     _Block_release(b); } }
+// an I/O channel's target queue replaced while a barrier is pending behind another barrier: the pending barrier was given the old target
+// queue when it was scheduled; the channel's reference to it is dropped by the change, the application's was dropped before. The old
+// queue must stay alive until that barrier has run (F46), and is finalised exactly once afterwards.
+static void iobarrier_round(void){ int fd=open("/dev/null",O_WRONLY); if(fd<0) return; struct sq *x=calloc(1,sizeof *x);
+  dispatch_io_t ch=dispatch_io_create(DISPATCH_IO_STREAM,fd,dispatch_get_global_queue(0,0),^(int e){ (void)e; close(fd); }); if(!ch){ close(fd); return; }
+  dispatch_queue_t t0=dispatch_queue_create("iob.t0",NULL); dispatch_set_target_queue(ch,t0);
+  __block _Atomic int b1_in=0, b1_go=0, b2_ran=0, fin_at_b2=-1;
+  dispatch_io_barrier(ch,^{ atomic_store(&b1_in,1); for(int w=0; w<20000 && !atomic_load(&b1_go); w++) usleep(100); });
+  for(int w=0; w<30000 && !atomic_load(&b1_in); w++) usleep(100);
+  dispatch_queue_t t1=dispatch_queue_create("iob.t1",NULL); dispatch_set_context(t1,x); dispatch_set_finalizer_f(t1,sq_fin);
+  dispatch_set_target_queue(ch,t1); dispatch_release(t1);                       // the channel owns t1 now
+  dispatch_io_barrier(ch,^{ atomic_store(&fin_at_b2,atomic_load(&x->fins)); atomic_store(&b2_ran,1); });      // scheduled while the channel targets t1
+  usleep((useconds_t)(2000+rnd()%3000));                                        // ... and sits behind the first barrier
+  dispatch_set_target_queue(ch,t0);                                             // the channel lets go of t1
+  usleep((useconds_t)(2000+rnd()%3000));
+  if(atomic_load(&x->fins) && !atomic_load(&b2_ran)) fail("the target queue an I/O barrier was scheduled with was finalised while that barrier was still pending (the channel had been given another target queue)",0,0,0);
+  atomic_store(&b1_go,1);
+  for(int w=0; w<30000 && !atomic_load(&b2_ran); w++) usleep(100);
+  if(!atomic_load(&b2_ran)) fail("an I/O barrier scheduled behind another one never ran (3 s) after the channel's target queue had been replaced",0,0,0);
+  else if(atomic_load(&fin_at_b2)>0) fail("an I/O barrier ran on a target queue that had already been finalised",0,0,0);
+  dispatch_io_close(ch,0); dispatch_release(ch); dispatch_release(t0);
+  for(int w=0; w<25000 && !atomic_load(&x->fins); w++) usleep(200);
+  if(!viol && atomic_load(&x->fins)!=1) fail("the replaced target queue of an I/O channel was not finalised exactly once within 5 s: finalizer runs",atomic_load(&x->fins),0,0); }
 static int nrounds, do_trace;
-static void *worker(void *a){ long me=(long)a; for(int r=0;r<nrounds && !viol;r++){ hierarchy(do_trace && me==0); if(r%4==0) source_round(); if(r%5==1) timer_reclock_round(); if(r%4==2) suspend_round(); if(r%3==0) data_round(); if(r%3==1) group_round(); if(r%2==0) retarget_round(do_trace && me==0); } return 0; }
+static void *worker(void *a){ long me=(long)a; for(int r=0;r<nrounds && !viol;r++){ hierarchy(do_trace && me==0); if(r%4==0) source_round(); if(r%5==1) timer_reclock_round(); if(r%4==2) suspend_round(); if(r%3==0) data_round(); if(r%3==1) group_round(); if(r%4==3) iobarrier_round(); if(r%2==0) retarget_round(do_trace && me==0); } return 0; }
 static void on_crash(int sig){ char b[220]; int n=snprintf(b,sizeof b,"ORACLE VIOL seed=%llu the library trapped or crashed (signal %d) during object life cycles (its own over-release / resurrection / corrupt-state check, or a use after free)\n",(unsigned long long)seed,sig); if(n>0) (void)!write(1,b,(size_t)n); _exit(1); }
 int main(int argc,char**argv){ seed=argc>1?strtoull(argv[1],0,0):1; nrounds=argc>2?atoi(argv[2]):60; int nthr=argc>3?atoi(argv[3]):3; do_trace=1;
   if(!getenv("ASAN_OPTIONS")){ signal(SIGILL,on_crash); signal(SIGSEGV,on_crash); signal(SIGABRT,on_crash); signal(SIGBUS,on_crash); }
